@@ -220,6 +220,9 @@ fn spec_inner(property: &str, tier: &str) -> Option<CheckSpec> {
 			sp.engine = "pibdsim+netsim".to_string();
 			sp.rule.push_str(". Per world (except the compacted and the 1000-output worlds, whose default-height segments exceed the 62 KB frame limit that AutomatedTesting's block weight implies) two further runs between two real nodes with their complete p2p stacks (E11 netsim), the simulator being the wire: the receiver gets its headers as Headers messages in HeaderSync status, its requests leave through the real Peer::send_*_segment_request of its outbound connection, reach the serving node's real Protocol / NetToChainAdapter::get_*_segment / Segmenter, and the answers come back into the receiver's real Protocol / receive_*_segment / Desegmenter; one run is fault free, in the other the wire loses requests and answers, duplicates, delays (reorders) and flips one byte of answers for 40 rounds (a frame the receiver cannot decode makes it hang up; the peer dials again). Oracle: completion within 80 fault-free rounds, validate_complete_state, then head/roots/sizes/unspent set/validate(false) equal to a node that processed every block to the archive header; the remaining blocks arrive as Block messages and the tip state equals the serving node's; no node thread panics");
 			sp.real_components.extend(net_real());
+			sp.rule.push_str(". A third wire run per small world syncs from the state archive: the receiver's real Peer::send_txhashset_request puts the request on the wire, the serving node's real Protocol answers with TxHashSetArchive and streams the zip behind it, the simulator carries message and attachment (in seeded write sizes from 1 to 100 000 bytes, around the 8 000-byte writer and 48 000-byte reader chunks) into the receiver, whose real connection reader stores the attachment and whose Protocol hands the file to txhashset_write; in every other world the first attempt carries one flipped byte or is cut short by the peer hanging up (refused, state unchanged - or, if accepted, exactly the reference state), then the honest archive must be accepted");
+			sp.required_probes.push("archive_sync_completed_over_the_wire".to_string());
+			sp.required_probes.push("bad_archive_refused_state_unchanged".to_string());
 			sp.required_probes.push("sync_completed_over_the_wire".to_string());
 			sp.required_probes.push("netsim_runs".to_string());
 			sp.case_timeout_s = 1500;
